@@ -141,7 +141,7 @@ def elem_unit(name, src_t, dest_t, order, rule, props, extra_params="", extra_as
     post = rule.replace("K", "0")
     h = HEAD + """
 void h_unit (void)
-{	%(src_t)s src [1] ; %(dest_t)s dest [1] ; %(src_t)s nd ;
+{	%(src_t)s src [1] ; %(dest_t)s dest [1] ; INPUT (%(src_t)s, nd) ;
 %(decl)s
 	src [0] = nd ;
 %(assume)s
@@ -149,10 +149,11 @@ void h_unit (void)
 	__CPROVER_assert (%(post)s, "element rule") ; /*@C02.element_rule_single*/
 	CANARY () ;
 }
-""" % dict(src_t=src_t, dest_t=dest_t, decl=("\t" + ep + " ;") if ep else "", call=call, post=post,
+""" % dict(src_t=src_t, dest_t=dest_t, decl=("\tINPUT (%s, %s) ;" % (" ".join(ep.split()[:-1]), argname)) if ep else "", call=call, post=post,
            assume=("\t__CPROVER_assume (%s) ;" % extra_assume) if extra_assume else "")
     return {"name": "pcm." + name + ".elem", "props": props, "harness_text": h, "template": "units/gen_pcm_kernels.py",
             "entry": "h_unit", "dfcc": False, "function": "pcm.c:" + name, "backend": backend,
+            "self_replay": True, "inputs": ["nd"] + ([argname] if ep else []), "replay_link": "all", "replay_exclude": ["pcm.c"],
             "cbmc_flags": ["--unwind", "2"], "timeout": 300, "tier": "quick", "kind": "proof",
             "drop_flags": list(drop_flags) + (["--slice-formula"] if backend == "cvc5" else []),
             "note": "single element, structural FP (cvc5); that every iteration applies this element function is "
